@@ -17,6 +17,7 @@ fn main() {
                 clones: flag("--clones").map(|v| v.parse().unwrap()).unwrap_or(0),
                 seed: flag("--seed").map(|v| v.parse().unwrap()).unwrap_or(1),
                 tlc_log: flag("--tlc-log"),
+                twin: args.iter().any(|a| a == "--twin"),
                 vias: flag("--vias").map(|v| v.split(',').map(|s| s.to_string()).collect()).unwrap_or_default(),
             };
             let stdin = std::io::stdin();
